@@ -2,8 +2,10 @@
 (DESIGN.md §4 C14).
 
 Per generated model (tiny; exact-regime weights) the REAL `model_save_quantized_weights` is run up
-to three times in a row (the third time through `get_model_sparsity`), with `model.predict` and
-`get_weights()` snapshots in between.  The same model description (layer classes, graph, the
+to three times in a row on the ONE model object (the third time through `get_model_sparsity`), with
+`model.predict` and `get_weights()` snapshots in between; in two of the three history variants the
+user assigns new weights to every layer between two exports.  All models live in one process and
+carry identical model / layer names (clear_session), so process-level state shows.  The same model description (layer classes, graph, the
 quantizer kinds the export dispatches on, weights) goes to the Lean driver, which runs
 QKV.Export.exportQ — the definition the theorems of QKV.Props.C14 are about.  Quantizer *numerics*
 enter the model as oracle tables (rows obtained by calling the real quantizer object standalone;
@@ -12,7 +14,8 @@ computes with the C01 model.  `rsqrt` is an oracle table; every other float32 st
 add_bn_fusing_weights is simulated (`rnd32`) and compared bit for bit.
 
 The (quantizer, weight) pairing of the export is the MODEL's (`layerQs`: QBatchNormalization by
-scale / center, QBidirectional per direction, recurrent layers without the state quantizer); the harness
+scale / center, QBidirectional per direction — each direction its OWN quantizers and number of
+weights, nothing symmetric — recurrent layers without the state quantizer); the harness
 only lists the pairing each layer's own call() uses (`fwd_pairing`) for the clause oracle.
 
 Clause oracle (judges the real outputs directly, independent of model agreement):
@@ -24,6 +27,7 @@ Clause oracle (judges the real outputs directly, independent of model agreement)
                    hold after the export (Lean `judge_bn`)
   pool             q_mult_factor == average quantizer of 1/pool_area (the plain factor without quantizer)
   export_raises    the export must not raise on any generated model
+  weights_file     filename=: the written file, read back, holds the weights the model holds afterwards
   predict_same / second_noop  for models whose quantizer scales are all data independent
   freeze           clone_model_and_freeze_auto_po2_scale: same HW weights, then repeatable
   sparsity         get_model_sparsity == fraction of zeros of the exported weights
@@ -31,6 +35,9 @@ Clause oracle (judges the real outputs directly, independent of model agreement)
 import contextlib
 import io
 import itertools
+import os
+import shutil
+import tempfile
 from fractions import Fraction as F
 
 import numpy as np
@@ -191,9 +198,19 @@ def layer_kind(l):
     return "folded"
   if isinstance(l, (QSimpleRNN, QLSTM, QGRU)):
     return "rnn"
-  if l.__class__.__name__ == "QBidirectional":
+  if is_a(l, "QBidirectional"):
     return "bidir"
   return "plain"
+
+
+def is_a(l, base):
+  """`l` is an instance of the library class `base` or of a user subclass of it"""
+  return any(c.__name__ == base and c.__module__.startswith("qkeras") for c in type(l).__mro__)
+
+
+def bn_subclass(l):
+  """a user subclass of QBatchNormalization (the export selects the batch-norm pairing by class NAME)"""
+  return is_a(l, "QBatchNormalization") and l.__class__.__name__ != "QBatchNormalization"
 
 
 ALLOW = ["QDense", "Dense", "QConv1D", "Conv1D", "QConv2D", "Conv2D", "QDepthwiseConv2D",
@@ -205,23 +222,23 @@ ALLOW = ["QDense", "Dense", "QConv1D", "Conv1D", "QConv2D", "Conv2D", "QDepthwis
 def fwd_pairing(l, kind, nq):
   """indices into get_quantizers() that the layer's own call() applies to get_weights()[k]
   (written from the layers' call() code, independently of the export)"""
-  cls = l.__class__.__name__
-  if cls == "QBatchNormalization":
+  if is_a(l, "QBatchNormalization"):
     out = []
     if l.scale:
       out.append(0)
     if l.center:
       out.append(1)
     return out + [2, 3]
-  if cls == "QBidirectional":
-    # each direction's cell quantizes its [kernel, recurrent_kernel(, bias)] with its first quantizers
-    h = nq // 2
+  if is_a(l, "QBidirectional"):
+    # each direction's cell quantizes ITS [kernel, recurrent_kernel(, bias)] with ITS first quantizers;
+    # the directions may be different layers (backward_layer=): other class, quantizers, bias, units
+    h = len(l.forward_layer.get_quantizers())
     nf = len(l.forward_layer.get_weights())
     nb = len(l.backward_layer.get_weights())
     return list(range(0, nf)) + list(range(h, h + nb))
   if kind == "rnn":
     return list(range(nq - 1))
-  if cls in ("QAveragePooling2D", "QGlobalAveragePooling2D"):
+  if is_a(l, "QAveragePooling2D") or is_a(l, "QGlobalAveragePooling2D"):
     return []
   return list(range(nq))
 
@@ -245,10 +262,16 @@ def successors(model):
 
 
 class Case:
-  def __init__(self, label, build, feats):
+  def __init__(self, label, build, feats, reweigh=None, rew=None, export_kw=None, sparsity_kw=None,
+               no_sparsity=False):
     self.label = label
-    self.build = build      # () -> (model, weights list per layer or None, input array)
+    self.build = build      # () -> (model, input array)
     self.feats = feats
+    self.reweigh = reweigh  # model -> None: the user assigns new weights to every layer (set_weights)
+    self.rew = rew          # round before which `reweigh` happens (None: the plain export history)
+    self.export_kw = export_kw or {}      # filename= / custom_objects= route of the export
+    self.sparsity_kw = sparsity_kw or {}  # allow_list= route of get_model_sparsity
+    self.no_sparsity = no_sparsity        # last round is a plain export (get_model_sparsity has no custom_objects)
 
 
 # --------------------------------------------------------------------------- the real run
@@ -325,7 +348,9 @@ def err_kind(e):
 
 
 class RealRun:
-  """one model: description, oracle tables, real exports, protocol line"""
+  """one model: description, oracle tables, real exports (a HISTORY on one model object: export,
+  export again, optionally new weights assigned in between, last round via get_model_sparsity),
+  protocol line"""
 
   def __init__(self, case, n_exports=3):
     import tensorflow as tf
@@ -352,56 +377,68 @@ class RealRun:
           self.tables[id(q)] = QTable(q)
     self.data_dep = any(data_dependent(q) for qs in self.qs for q in qs)
     self.rsq_rows = {}
-    self.fold_rows = []
     W0 = snapshot(model)
-    self.W = [W0]
-    # folded weights (never written back): one row per folded layer
-    self.folded = {}
-    for i, (l, kind) in enumerate(zip(layers, self.kinds)):
-      if kind == "folded":
-        fw = [f32a(t) for t in l.get_folded_weights()]
-        self.folded[i] = fw
+
+    def folded_now():
+      return {i: [f32a(t) for t in l.get_folded_weights()]
+              for i, (l, kind) in enumerate(zip(layers, self.kinds)) if kind == "folded"}
+    # folded weights (never written back): one oracle row per folded layer and weight assignment
+    bases = [(W0, folded_now())]
+    self.rew = case.rew if (case.rew is not None and case.reweigh is not None) else None
+    self.W_alt = None
+    if self.rew is not None:
+      # the weights the user assigns later in the history (generated now, assigned at round `rew`)
+      case.reweigh(model)
+      self.W_alt = snapshot(model)
+      bases.append((self.W_alt, folded_now()))
+      self._assign(W0)
+    self.bases = bases
     # ---- oracle closure: every tensor a position can hold within the exports under the layer's own
     # (quantizer, weight) pairing — the pairing the export has to use; if the export ever pairs
-    # differently the driver finds no table row (poison) and the weights disagree
-    for i, (l, kind) in enumerate(zip(layers, self.kinds)):
-      if kind == "noq":
-        continue
-      base = self.folded[i] if kind == "folded" else W0[i]
-      for k, w in enumerate(base):
-        cand = set()
-        if k < len(self.fwd[i]):
-          cand.add(self.fwd[i][k])
-        cand = [self.qs[i][c] for c in sorted(cand) if c < len(self.qs[i]) and self.qs[i][c] is not None]
-        seen = {key_of(w): w}
-        frontier = [w]
-        for _ in range(n_exports + 1):
-          nxt = []
-          for x in frontier:
-            for q in cand:
-              y = self.tables[id(q)].call(x)
-              if key_of(y) not in seen:
-                seen[key_of(y)] = y
-                nxt.append(y)
-          frontier = nxt
-          if not frontier:
-            break
-        if l.__class__.__name__ == "QBatchNormalization":
-          # variance position: rsqrt oracle rows for every tensor the variance can be
-          vpos = int(bool(l.scale)) + int(bool(l.center)) + 1
-          if k == vpos:
-            eps = np.float32(l.epsilon)
-            for x in list(seen.values()):
-              arg = f32a(x) + eps
-              val = f32a(math_ops.rsqrt(arg).numpy())
-              for a, v in zip(arg.ravel(), val.ravel()):
-                self.rsq_rows[float(a)] = float(v)
+    # differently the driver finds no table row (poison) and the weights disagree.
+    # Exception (recorded finding C14-bn-subclass-zip): a user subclass of QBatchNormalization is
+    # zipped positionally by the export; the model mirrors that, so those rows are provided as well.
+    for Wbase, fold in bases:
+      for i, (l, kind) in enumerate(zip(layers, self.kinds)):
+        if kind == "noq":
+          continue
+        base = fold[i] if kind == "folded" else Wbase[i]
+        for k, w in enumerate(base):
+          cand = set()
+          if k < len(self.fwd[i]):
+            cand.add(self.fwd[i][k])
+          if bn_subclass(l):
+            cand.add(k)
+          cand = [self.qs[i][c] for c in sorted(cand) if c < len(self.qs[i]) and self.qs[i][c] is not None]
+          seen = {key_of(w): w}
+          frontier = [w]
+          for _ in range(n_exports + 1):
+            nxt = []
+            for x in frontier:
+              for q in cand:
+                y = self.tables[id(q)].call(x)
+                if key_of(y) not in seen:
+                  seen[key_of(y)] = y
+                  nxt.append(y)
+            frontier = nxt
+            if not frontier:
+              break
+          if l.__class__.__name__ == "QBatchNormalization":
+            # variance position: rsqrt oracle rows for every tensor the variance can be
+            vpos = int(bool(l.scale)) + int(bool(l.center)) + 1
+            if k == vpos:
+              eps = np.float32(l.epsilon)
+              for x in list(seen.values()):
+                arg = f32a(x) + eps
+                val = f32a(math_ops.rsqrt(arg).numpy())
+                for a, v in zip(arg.ravel(), val.ravel()):
+                  self.rsq_rows[float(a)] = float(v)
     # pooling rows
     self.pool = {}
     for i, l in enumerate(layers):
-      cls = l.__class__.__name__
-      if cls in ("QAveragePooling2D", "QGlobalAveragePooling2D"):
-        if cls == "QAveragePooling2D":
+      avg, gap = is_a(l, "QAveragePooling2D"), is_a(l, "QGlobalAveragePooling2D")
+      if avg or gap:
+        if avg:
           ps = l.pool_size
           area = ps * ps if isinstance(ps, int) else int(np.prod(ps))
         else:
@@ -412,32 +449,74 @@ class RealRun:
         qm = float(np.float32(self.tables[id(q)].call_scalar(mf))) if q is not None else mf
         self.pool[i] = (area, mf, qm)
     # ---- the real exports
-    self.pred = [self._predict()]
+    self.Wb, self.Wa, self.pb, self.pa, self.fresh, self.base_of = [], [], [], [], [], []
     self.dicts = []
     self.errs = []
     self.sparsity = None
+    self.file_w = {}
+    cur_base = 0
     for r in range(n_exports):
-      self._bn_rows(self.W[-1])
+      fresh = r == 0
+      if self.rew is not None and r == self.rew:
+        self._assign(self.W_alt)
+        fresh = True
+        cur_base = 1
+      self.fresh.append(fresh)
+      self.base_of.append(cur_base)
+      self.Wb.append(snapshot(model))
+      self.pb.append(self._predict() if (fresh or not self.pa) else self.pa[-1])   # nothing happened in between
+      self._bn_rows(self.Wb[-1])
       try:
-        if r == n_exports - 1:
-          sp = quiet(qutils.get_model_sparsity, model, per_layer=True)
+        if r == n_exports - 1 and not case.no_sparsity:
+          sp = quiet(qutils.get_model_sparsity, model, per_layer=True, **case.sparsity_kw)
           self.sparsity = sp
           d = None
         else:
-          d = quiet(qutils.model_save_quantized_weights, model)
+          d = quiet(qutils.model_save_quantized_weights, model, **case.export_kw)
+          if case.export_kw.get("filename"):
+            self.file_w[r] = self._read_file(case.export_kw["filename"])
         self.errs.append(None)
       except Exception as e:  # pylint: disable=broad-except
         d = None
         self.errs.append(err_kind(e))
       self.dicts.append(d)
-      self.W.append(snapshot(model))
-      self.pred.append(self._predict())
+      self.Wa.append(snapshot(model))
+      self.pa.append(self._predict())
       if self.errs[-1] is not None:
         break
+    if not any("Conv" in c.__name__ for l in layers for c in type(l).__mro__):
+      # no convolution anywhere: the stand-alone call is skipped (one model clone less; what the
+      # export itself found still shows in the dictionaries)
+      self.pairs = None
+      return
     try:
-      self.pairs = quiet(qutils.find_bn_fusing_layer_pair, model)
+      self.pairs = quiet(qutils.find_bn_fusing_layer_pair, model,
+                         **({"custom_objects": case.export_kw["custom_objects"]}
+                            if "custom_objects" in case.export_kw else {}))
     except Exception as e:  # pylint: disable=broad-except
       self.pairs = ("err", err_kind(e))
+
+  def _assign(self, W):
+    for l, ws in zip(self.model.layers, W):
+      if ws:
+        l.set_weights(ws)
+
+  def _read_file(self, filename):
+    """the weights file the export wrote (filename=), read back into a structural clone"""
+    from qkeras import utils as qutils
+    try:
+      m2 = quiet(qutils.clone_model, self.model)
+      for l in m2.layers:          # poison, so that weights missing from the file show
+        ws = l.get_weights()
+        if ws:
+          l.set_weights([np.full_like(w, 977.0) for w in ws])
+      m2.load_weights(filename)
+      return snapshot(m2)
+    except Exception as e:  # pylint: disable=broad-except
+      return ("err", repr(e)[:200])
+
+  def folded_at(self, rd):
+    return self.bases[self.base_of[rd]][1]
 
   def _predict(self):
     try:
@@ -474,6 +553,14 @@ class RealRun:
       vq = self.qs[b][3]
       var = self.tables[id(vq)].call(bw[idx]) if vq is not None else bw[idx]
       arg = f32a(var) + np.float32(bn.epsilon)
+      # (a variance tensor outside the closure — only possible if an earlier export went wrong —
+      # gets its oracle row here instead of crashing the harness)
+      miss = [a for a in arg.ravel() if float(a) not in self.rsq_rows]
+      if miss:
+        from tensorflow.python.ops import math_ops
+        val = f32a(math_ops.rsqrt(f32a(miss)).numpy())
+        for a, v in zip(miss, val.ravel()):
+          self.rsq_rows[float(a)] = float(v)
       rs = np.array([self.rsq_rows[float(a)] for a in arg.ravel()], dtype=np.float32).reshape(arg.shape)
       inv0 = f32a(f32a(gamma) * rs)
       self.tables[id(iq)].call(inv0)
@@ -488,31 +575,36 @@ class RealRun:
       d = {"cls": cls, "kind": kind,
            "qs": [None if q is None else self.tables[id(q)].json() for q in self.qs[i]],
            "fwd": self.fwd[i], "use_bias": bool(getattr(l, "use_bias", False)),
-           "succ": self.succ[i], "allow": cls in ALLOW and hasattr(l, "quantizers"),
+           "succ": self.succ[i],
+           "allow": cls in (self.case.sparsity_kw.get("allow_list") or ALLOW) and hasattr(l, "quantizers"),
            "bn": None, "pool": None}
-      if cls == "QBatchNormalization":
+      if is_a(l, "QBatchNormalization"):
+        # (the model reads it for the class NAME QBatchNormalization only, like the export)
         d["bn"] = {"scale": bool(l.scale), "center": bool(l.center), "eps": core.rj(float(l.epsilon))}
       if i in self.pool:
         area, mf, _ = self.pool[i]
         d["pool"] = {"area": core.rj(area), "mf": core.rj(mf)}
       if kind == "folded":
-        d["fold"] = [[[enc(t) for t in self.W[0][i]], [enc(t) for t in self.folded[i]]]]
+        d["fold"] = [[[enc(t) for t in Wbase[i]], [enc(t) for t in fold[i]]] for Wbase, fold in self.bases]
       if kind == "bidir":
-        nf, nb = len(l.forward_layer.get_weights()), len(l.backward_layer.get_weights())
-        nqf, nqb = len(l.forward_layer.get_quantizers()), len(l.backward_layer.get_quantizers())
-        if nf != nb or nqf != nqb:
-          raise core.InfraError("QBidirectional with asymmetric directions is outside the model")
-        d["dir_w"] = nf
+        # nothing symmetric is assumed: each direction's own number of weights, and where the
+        # backward layer's quantizers start in get_quantizers()
+        d["dir_w"] = len(l.forward_layer.get_weights())
+        d["dir_wb"] = len(l.backward_layer.get_weights())
+        d["dir_q"] = len(l.forward_layer.get_quantizers())
       L.append(d)
     return {"op": "export", "n": n_exports, "rnd": "f32",
             "rsq": [[core.rj(a), core.rj(v)] for a, v in sorted(self.rsq_rows.items())],
-            "layers": L, "ws": [[enc(t) for t in ws] for ws in self.W[0]]}
+            "layers": L, "ws": [[enc(t) for t in ws] for ws in self.bases[0][0]],
+            "rew": None if self.rew is None else
+            {"round": self.rew, "ws": [[enc(t) for t in ws] for ws in self.W_alt]}}
 
 
 # --------------------------------------------------------------------------- generators
 
-def build_cases(rng, tier):
-  """tiny models aimed at every branch of the export (see `feats`)"""
+def build_cases(rng, tier, rot0=0):
+  """tiny models aimed at every branch of the export (see `feats`); every case is a HISTORY on one
+  model object (see RealRun): by default the three variants rotate over the case list"""
   import tensorflow as tf
   from qkeras import (QDense, QConv1D, QConv2D, QDepthwiseConv2D, QSeparableConv2D, QSimpleRNN,
                       QLSTM, QGRU, QBidirectional, QBatchNormalization, QAveragePooling2D,
@@ -550,6 +642,15 @@ def build_cases(rng, tier):
       "ter1": lambda: ternary(alpha=1.0),
       "ter": lambda: ternary(),
       "none": lambda: None,
+      "fx6": lambda: quantized_bits(6, 1, 1, alpha=1.0),
+      "fx3": lambda: quantized_bits(3, 0, 1, alpha=1.0),
+      # argument forms: the same kinds written as strings / with numpy-typed or float arguments
+      "s_apo2": lambda: "quantized_bits(4, 0, 1, alpha='auto_po2')",
+      "s_po2": lambda: "quantized_po2(4)",
+      "s_fx": lambda: "quantized_bits(4,0,1,alpha=1.0)",
+      "np_apo2": lambda: quantized_bits(np.int64(5), np.int32(1), np.int64(1), alpha="auto_po2"),
+      "fl_apo2": lambda: quantized_bits(5.0, 1.0, True, alpha="auto_po2"),
+      "np_fx": lambda: quantized_bits(np.float32(4), np.float64(1), 1, alpha=np.float32(1.0)),
   }
   BQ = {   # bias-quantizer menu
       "fx": lambda: fx(),
@@ -557,6 +658,11 @@ def build_cases(rng, tier):
       "po2": lambda: quantized_po2(4),
       "apo2": lambda: quantized_bits(5, 1, 1, alpha="auto_po2"),
       "none": lambda: None,
+      "fx6": lambda: quantized_bits(6, 1, 1, alpha=1.0),
+      "fx3": lambda: quantized_bits(3, 0, 1, alpha=1.0),
+      "ter1": lambda: ternary(alpha=1.0),
+      "s_po2": lambda: "quantized_po2(4)",
+      "np_fx": lambda: quantized_bits(np.int64(4), np.float64(1), 1, alpha=np.float32(1.0)),
   }
 
   def set_w(model, span=80):
@@ -567,8 +673,8 @@ def build_cases(rng, tier):
       new = []
       cls = l.__class__.__name__
       for k, w in enumerate(ws):
-        if cls in ("QBatchNormalization", "BatchNormalization") or (
-            cls in ("QConv2DBatchnorm",) and k >= (2 if l.use_bias else 1)):
+        if cls == "BatchNormalization" or is_a(l, "QBatchNormalization") or (
+            is_a(l, "QConv2DBatchnorm") and k >= (2 if l.use_bias else 1)):
           names = [v.name for v in l.weights]
           nm = names[k]
           if "variance" in nm:
@@ -627,15 +733,22 @@ def build_cases(rng, tier):
 
   cases = []
 
-  def add(label, feats, fn):
-    cases.append(Case(label, fn, feats))
+  def add(label, feats, fn, rew="rot", **kw):
+    # history variant: None = export, export, sparsity; 1 = export, NEW WEIGHTS, export, sparsity;
+    # 2 = export, export, NEW WEIGHTS, sparsity (rotating with the case index and the run seed)
+    if rew == "rot":
+      rew = [None, 1, 2][(len(cases) + rot0) % 3]
+    feats = dict(feats)
+    feats["rew"] = rew
+    cases.append(Case(label + ("" if rew is None else " {new weights before export %d}" % rew),
+                      fn, feats, reweigh=set_w, rew=rew, **kw))
 
   # -- single weight-bearing layers x quantizer menu
-  def mk_dense(kq, bq, use_bias=True):
+  def mk_dense(kq, bq, use_bias=True, mname=None):
     def f():
       x = inp = K.Input((4,))
       y = QDense(3, kernel_quantizer=WQ[kq](), bias_quantizer=BQ[bq](), use_bias=use_bias, name="d")(x)
-      m = K.Model(inp, y)
+      m = K.Model(inp, y, **({"name": mname} if mname else {}))
       set_w(m)
       return m, xin((4,))
     return f
@@ -649,16 +762,19 @@ def build_cases(rng, tier):
       return m, xin((5, 2))
     return f
 
-  def mk_conv2d(kq, bq, bnk=None, use_bias=True, dw=False, branch=False, pool=None):
+  def mk_conv2d(kq, bq, bnk=None, use_bias=True, dw=False, branch=False, pool=None, mname=None,
+                act_between=False, conv_cls=None):
     def f():
       x = inp = K.Input((4, 4, 2))
       if dw:
         y = QDepthwiseConv2D(2, depthwise_quantizer=WQ[kq](), bias_quantizer=BQ[bq](),
                              use_bias=use_bias, name="dw")(x)
       else:
-        y = QConv2D(2, 2, kernel_quantizer=WQ[kq](), bias_quantizer=BQ[bq](), use_bias=use_bias,
-                    name="c2")(x)
+        y = (conv_cls() if conv_cls else QConv2D)(2, 2, kernel_quantizer=WQ[kq](), bias_quantizer=BQ[bq](),
+                                                  use_bias=use_bias, name="c2")(x)
       c = y
+      if act_between:      # conv -> activation -> bn: the batch-norm does NOT directly follow the conv
+        y = QActivation("quantized_relu(4,2)", name="act")(y)
       if bnk:
         y = bn(bnk)(y)
       if branch:
@@ -676,9 +792,58 @@ def build_cases(rng, tier):
         y = QAveragePooling2D(pool_size=(3, 3), strides=1, name="pool")(y)     # 1/9: not a dyadic factor
       elif pool == "gap_none":
         y = QGlobalAveragePooling2D(name="gap")(y)
-      m = K.Model(inp, y)
+      elif pool == "avg12":          # non-square window: pool_area = np.prod((1, 2))
+        y = QAveragePooling2D(pool_size=(1, 2), average_quantizer=quantized_bits(6, 0, 1, alpha=1.0),
+                              name="pool")(y)
+      elif pool == "avg_list":       # pool_size given as a list
+        y = QAveragePooling2D(pool_size=[2, 2], average_quantizer=quantized_bits(6, 0, 1, alpha=1.0),
+                              name="pool")(y)
+      elif pool == "avg_sub":        # a user subclass of the pooling layer
+        y = _user_subclasses(K)["MyPool"](pool_size=2, average_quantizer=quantized_bits(6, 0, 1, alpha=1.0),
+                                          name="pool")(y)
+      m = K.Model(inp, y, **({"name": mname} if mname else {}))
       set_w(m)
       return m, xin((4, 4, 2))
+    return f
+
+  def mk_seq(bnk):
+    """the Sequential route of find_bn_fusing_layer_pair (model.layers has no InputLayer)"""
+    def f():
+      m = K.Sequential([K.Input((4, 4, 2)),
+                        QConv2D(2, 2, kernel_quantizer=WQ["fx"](), bias_quantizer=BQ["fx"](), name="c2"),
+                        bn(bnk),
+                        QActivation("quantized_relu(4,2)", name="act"),
+                        QDepthwiseConv2D(2, depthwise_quantizer=WQ["po2"](), use_bias=False, name="dw"),
+                        bn("fx", "bn1")], name="seq")
+      set_w(m)
+      return m, xin((4, 4, 2))
+    return f
+
+  def mk_pool_cf(pool):
+    """channels_first pooling (pooling area read from the other axes)"""
+    def f():
+      x = inp = K.Input((2, 4, 6))
+      if pool == "gap":
+        y = QGlobalAveragePooling2D(data_format="channels_first",
+                                    average_quantizer=quantized_bits(8, 0, 1, alpha=1.0), name="gap")(x)
+      else:
+        y = QAveragePooling2D(pool_size=(1, 2), data_format="channels_first",
+                              average_quantizer=quantized_bits(8, 0, 1, alpha=1.0), name="pool")(x)
+      m = K.Model(inp, y)
+      return m, xin((2, 4, 6))
+    return f
+
+  def mk_shared(kq):
+    """ONE quantizer object used by two layers of different shapes (its .scale attribute is state)"""
+    def f():
+      q = WQ[kq]()
+      b = BQ["fx"]()
+      x = inp = K.Input((4,))
+      y = QDense(3, kernel_quantizer=q, bias_quantizer=b, name="d1")(x)
+      y = QDense(2, kernel_quantizer=q, bias_quantizer=b, name="d2")(y)
+      m = K.Model(inp, y)
+      set_w(m)
+      return m, xin((4,))
     return f
 
   def mk_sep(dq, pq, bq):
@@ -704,6 +869,67 @@ def build_cases(rng, tier):
       return m, xin((3, 2))
     return f
 
+  CELL = {"rnn": QSimpleRNN, "lstm": QLSTM, "gru": QGRU}
+
+  def mk_bidir2(fc, bc, fqn, bqn, fub=True, bub=True, funits=2, bunits=2, share=False, sub=False):
+    """QBidirectional(layer, backward_layer=<another recurrent layer>): the two directions are
+    independent layers — other quantizers (kinds, widths, None), other class, bias, units"""
+    def f():
+      x = inp = K.Input((3, 2))
+      cf, cb, wrap = CELL[fc], CELL[bc], QBidirectional
+      if sub:
+        U = _user_subclasses(K)
+        cf, cb, wrap = U["My" + fc], U["My" + bc], U["MyBidir"]
+      fk, fr, fb = WQ[fqn[0]](), WQ[fqn[1]](), BQ[fqn[2]]()
+      if share:       # the very same quantizer OBJECTS in both directions
+        bk, br, bb = fk, fr, fb
+      else:
+        bk, br, bb = WQ[bqn[0]](), WQ[bqn[1]](), BQ[bqn[2]]()
+      fwd = cf(funits, kernel_quantizer=fk, recurrent_quantizer=fr, bias_quantizer=fb,
+               state_quantizer=quantized_bits(2, 0, 1, alpha=1.0), use_bias=fub)
+      bwd = cb(bunits, kernel_quantizer=bk, recurrent_quantizer=br, bias_quantizer=bb,
+               state_quantizer=quantized_bits(3, 0, 1, alpha=1.0), use_bias=bub, go_backwards=True)
+      y = wrap(fwd, backward_layer=bwd, name="bi")(x)
+      m = K.Model(inp, y)
+      set_w(m)
+      return m, xin((3, 2))
+    return f
+
+  def mk_rnn_sub(cls, kq, rq, bq):
+    def f():
+      x = inp = K.Input((3, 2))
+      y = _user_subclasses(K)["My" + cls](2, kernel_quantizer=WQ[kq](), recurrent_quantizer=WQ[rq](),
+                                          bias_quantizer=BQ[bq](),
+                                          state_quantizer=quantized_bits(2, 0, 1, alpha=1.0), name="r")(x)
+      m = K.Model(inp, y)
+      set_w(m)
+      return m, xin((3, 2))
+    return f
+
+  def mk_bn_sub(scale, center, fused):
+    """a user subclass of QBatchNormalization, stand-alone or right after a QConv2D"""
+    def f():
+      MyBN = _user_subclasses(K)["MyBN"]
+      kw = dict(scale=scale, center=center, mean_quantizer=fx(6, 2, 0),
+                variance_quantizer=quantized_bits(6, 2, 0, keep_negative=False, alpha=1.0), name="bn")
+      if scale:
+        kw["gamma_quantizer"] = fx(6, 2, 0)
+      if center:
+        kw["beta_quantizer"] = fx(5, 2, 0)
+      if fused:
+        x = inp = K.Input((4, 4, 2))
+        y = QConv2D(2, 2, kernel_quantizer=WQ["fx"](), bias_quantizer=BQ["fx"](), name="c2")(x)
+        shape = (4, 4, 2)
+      else:
+        x = inp = K.Input((4,))
+        y = K.layers.Dense(3, name="pd")(x)
+        shape = (4,)
+      y = MyBN(**kw)(y)
+      m = K.Model(inp, y)
+      set_w(m)
+      return m, xin(shape)
+    return f
+
   def mk_bn_alone(bnk):
     """a batch-norm that is NOT fused (it follows a plain Dense): only the main loop touches it"""
     def f():
@@ -715,10 +941,11 @@ def build_cases(rng, tier):
       return m, xin((4,))
     return f
 
-  def mk_folded(kq, bq):
+  def mk_folded(kq, bq, sub=False):
     def f():
       x = inp = K.Input((4, 4, 2))
-      y = QConv2DBatchnorm(2, 2, kernel_quantizer=WQ[kq](), bias_quantizer=BQ[bq](), name="fold")(x)
+      cls = _user_subclasses(K)["MyFold"] if sub else QConv2DBatchnorm
+      y = cls(2, 2, kernel_quantizer=WQ[kq](), bias_quantizer=BQ[bq](), name="fold")(x)
       m = K.Model(inp, y)
       set_w(m)
       return m, xin((4, 4, 2))
@@ -783,7 +1010,8 @@ def build_cases(rng, tier):
 
   def mk_subclass(kq, bq):
     def f():
-      MyDense, MyConv = _user_subclasses(K, QDense, QConv2D)
+      U = _user_subclasses(K)
+      MyDense, MyConv = U["MyDense"], U["MyConv"]
       x = inp = K.Input((4, 4, 1))
       y = MyConv(2, 2, kernel_quantizer=WQ[kq](), bias_quantizer=BQ[bq](), name="myc")(x)
       y = K.layers.Flatten(name="fl")(y)
@@ -823,15 +1051,84 @@ def build_cases(rng, tier):
                           ("lstm", "fx", "fx", "fx"), ("gru", "fx", "po2", "fx")]:
     add("Q%s[%s,%s,%s]" % (cls, kq, rq, bq), {"cls": cls, "kq": kq, "rq": rq}, mk_rnn(cls, kq, rq, bq))
   add("Qrnn[nobias]", {"cls": "rnn", "nobias": True}, mk_rnn("rnn", "fx", "fx", "fx", use_bias=False))
-  add("QBidirectional[rnn]", {"cls": "bidir"}, mk_rnn("rnn", "fx", "fx", "fx", bidir=True))
   # every slot a different quantizer family (a shifted pairing shows in the weights), the three cell
   # classes, and use_bias=False (two weights per direction against four quantizers)
-  for cls, kq, rq, bq, ub in [("rnn", "fx", "po2", "fxn", True), ("lstm", "ter1", "fx", "po2", True),
-                              ("gru", "po2", "bin1", "fx", True), ("rnn", "fx", "po2", "fx", False),
+  # (the backward layer here is the clone Keras makes; explicit backward layers follow below)
+  for cls, kq, rq, bq, ub in [("rnn", "fx", "po2", "fxn", True), ("gru", "po2", "bin1", "fx", True),
                               ("lstm", "po2", "fx", "fx", False), ("rnn", "apo2", "fx", "po2", True)]:
     add("QBidirectional[%s,%s,%s,%s,bias=%s]" % (cls, kq, rq, bq, ub),
         {"cls": "bidir", "cell": cls, "kq": kq, "rq": rq, "nobias": not ub},
         mk_rnn(cls, kq, rq, bq, bidir=True, use_bias=ub))
+  # -- strengthening round: QBidirectional with an EXPLICIT backward layer (seed C14-5 family).  The
+  # directions differ in quantizer kinds / widths / None, in bias, in cell class and in units; all
+  # three cell classes, with and without bias.
+  B2 = [
+      # fc,    bc,     forward [k, r, b],        backward [k, r, b],        fub,   bub,  fu bu
+      ("lstm", "lstm", ("fx6", "fx6", "fx6"), ("po2m", "fx3", "ter1"), True, True, 2, 2),     # the seed's demo
+      ("gru", "gru", ("fx6", "po2", "fx3"), ("ter1", "fx3", "po2"), True, True, 2, 2),
+      ("rnn", "rnn", ("po2", "fx3", "fxn"), ("none", "none", "none"), True, True, 2, 2),      # quantized vs None
+      ("lstm", "lstm", ("fx6", "fx3", "fx"), ("fx3", "po2", "fx"), False, False, 2, 2),        # no bias at all
+      ("gru", "gru", ("none", "none", "fx"), ("fx3", "ter1", "fx"), False, False, 2, 2),      # None vs quantized
+      ("rnn", "rnn", ("fx6", "fx6", "fx"), ("po2", "fx3", "fx"), False, False, 2, 2),
+      ("rnn", "rnn", ("fx6", "fx6", "fx6"), ("fx3", "fx3", "fx3"), True, True, 2, 2),          # same kind, other widths
+      ("rnn", "gru", ("fx6", "fx6", "fx6"), ("apo2", "fx3", "po2"), True, True, 2, 2),         # auto_po2 + po2 backward
+      ("gru", "rnn", ("fx6", "fx3", "fx6"), ("po2", "fx6", "fx3"), True, False, 2, 2),         # bias only forward, other class
+      ("rnn", "lstm", ("po2", "fx6", "fx"), ("fx3", "fx6", "po2"), False, True, 2, 3),         # bias only backward, other units
+  ]
+  for fc, bc, fqn, bqn, fub, bub, fu, bu in B2:
+    add("QBidirectional[%s(%s,bias=%s,%d) <-> backward_layer=%s(%s,bias=%s,%d)]"
+        % (fc, ",".join(fqn), fub, fu, bc, ",".join(bqn), bub, bu),
+        {"cls": "bidir", "cell": fc, "bcell": bc, "explicit_backward": True, "nobias": not fub,
+         "bnobias": not bub}, mk_bidir2(fc, bc, fqn, bqn, fub, bub, fu, bu))
+  add("QBidirectional[rnn, backward_layer shares the quantizer objects]",
+      {"cls": "bidir", "explicit_backward": True, "shared_q": True},
+      mk_bidir2("rnn", "rnn", ("fx6", "po2", "fx3"), None, share=True))
+  add("subclass[MyBidir(Myrnn, backward_layer=Mygru)]",
+      {"cls": "user-subclass", "base": "bidir", "explicit_backward": True},
+      mk_bidir2("rnn", "gru", ("fx6", "fx3", "fx6"), ("po2", "fx6", "ter1"), True, False, sub=True))
+  add("subclass[Mylstm]", {"cls": "user-subclass", "base": "rnn"}, mk_rnn_sub("lstm", "po2", "fx3", "fx6"))
+  # -- user subclasses of the other classes the export treats specially
+  for sc, ce, fused in [(True, True, False), (True, True, True), (False, True, False), (True, False, True)]:
+    add("subclass[MyBN(scale=%s,center=%s)%s]" % (sc, ce, " after QConv2D" if fused else ""),
+        {"cls": "user-subclass", "base": "QBatchNormalization", "bn_scale": sc, "bn_center": ce},
+        mk_bn_sub(sc, ce, fused))
+  add("subclass[MyConv]+bn[fx]", {"cls": "user-subclass", "base": "QConv2D", "bn": "fx"},
+      mk_conv2d("fx", "fx", "fx", conv_cls=lambda: _user_subclasses(K)["MyConv"]))
+  add("subclass[MyFold]", {"cls": "user-subclass", "base": "folded"}, mk_folded("po2", "fx", sub=True))
+  add("subclass[MyPool]", {"cls": "user-subclass", "base": "pool"}, mk_conv2d("fx", "fx", pool="avg_sub"))
+  # -- process-level state: DIFFERENT models with IDENTICAL model and layer names, back to back
+  # (conv -> bn is fusable, conv -> activation -> bn is not), then the first one again
+  add("twin[net: conv->bn]", {"cls": "QConv2D", "bn": "fx", "twin": "A"},
+      mk_conv2d("fx", "fx", "fx", mname="net"), rew=None)
+  add("twin[net: conv->act->bn]", {"cls": "QConv2D", "bn": "fx", "twin": "B"},
+      mk_conv2d("fx", "fx", "fx", mname="net", act_between=True), rew=None)
+  add("twin[net: conv->bn again]", {"cls": "QConv2D", "bn": "inv", "twin": "A2"},
+      mk_conv2d("fx", "fxn", "inv", mname="net"), rew=1)
+  add("twin[net: dense]", {"cls": "QDense", "twin": "C"}, mk_dense("po2", "fx", mname="net"), rew=None)
+  # -- API routes: Sequential, filename=, custom_objects=, allow_list=
+  add("Sequential[conv+bn(noscale),act,dw+bn]", {"cls": "sequential", "bn": "noscale"}, mk_seq("noscale"))
+  add("QConv2D[apo2,fx]+bn[fx] filename=", {"cls": "QConv2D", "route": "filename"},
+      mk_conv2d("apo2", "fx", "fx"), rew=1, export_kw={"filename": "@tmp"})
+  add("QBidirectional[explicit backward] filename=", {"cls": "bidir", "route": "filename"},
+      mk_bidir2("rnn", "gru", ("fx6", "fx3", "fx6"), ("po2", "ter1", "fx3"), True, False), rew=None,
+      export_kw={"filename": "@tmp"})
+  add("unregistered subclass, custom_objects=", {"cls": "user-subclass", "route": "custom_objects"},
+      _unregistered_case(K, QDense, QConv2D, WQ, BQ, bn, set_w, xin), export_kw={"custom_objects": "@unregistered"},
+      no_sparsity=True)
+  add("Dense+QDense allow_list=[QDense]", {"cls": "Dense+QDense", "route": "allow_list"}, mk_plain_dense(),
+      sparsity_kw={"allow_list": ["QDense"]})
+  add("QConv2D+bn allow_list=[QConv2D,QBatchNormalization]", {"cls": "QConv2D", "bn": "fx", "route": "allow_list"},
+      mk_conv2d("ter1", "fx", "fx"), sparsity_kw={"allow_list": ["QConv2D", "QBatchNormalization"]})
+  # -- one quantizer object used by two layers; argument forms of the quantizers
+  for kq in ["apo2", "po2", "fx"]:
+    add("shared quantizer object[%s]" % kq, {"cls": "QDense", "kq": kq, "shared_q": True}, mk_shared(kq))
+  for kq, bq in [("s_apo2", "s_po2"), ("s_po2", "np_fx"), ("s_fx", "fx"), ("np_apo2", "po2"), ("fl_apo2", "fx"),
+                 ("np_fx", "np_fx")]:
+    add("QDense[%s,%s]" % (kq, bq), {"cls": "QDense", "kq": kq, "bq": bq, "argform": True}, mk_dense(kq, bq))
+  for p_ in ["avg12", "avg_list"]:
+    add("QConv2D+pool[%s]" % p_, {"cls": "pool", "pool": p_}, mk_conv2d("fx", "fx", pool=p_))
+  for p_ in ["gap", "avg12"]:
+    add("pool[%s,channels_first]" % p_, {"cls": "pool", "pool": p_ + "_cf"}, mk_pool_cf(p_))
   add("QConv2DBatchnorm[fx,fx]", {"cls": "folded", "kq": "fx"}, mk_folded("fx", "fx"))
   add("QConv2DBatchnorm[po2,fx]", {"cls": "folded", "kq": "po2"}, mk_folded("po2", "fx"))
   add("chain(conv+bn,dw+bn,dense)", {"cls": "chain"}, mk_chain())
@@ -866,28 +1163,75 @@ def build_cases(rng, tier):
       cell = ["rnn", "lstm", "gru"][int(rng.integers(0, 3))]
       rq = ["fx", "po2", "ter1", "bin1"][int(rng.integers(0, 4))]
       ub = bool(rng.integers(0, 2))
-      bd = bool(rng.integers(0, 3))          # 2 of 3 bidirectional
-      add("r%d:Q%s[%s,%s,%s,bidir=%s,bias=%s]" % (j, cell, kq, rq, bq, bd, ub),
-          {"cls": "bidir" if bd else cell, "kq": kq, "rq": rq, "nobias": not ub},
-          mk_rnn(cell, kq, rq, bq, bidir=bd, use_bias=ub))
+      bd = int(rng.integers(0, 3))          # 0: plain, 1: bidirectional (cloned), 2: explicit backward layer
+      if bd == 2:
+        bcell = ["rnn", "lstm", "gru"][int(rng.integers(0, 3))]
+        bk = kqs[int(rng.integers(0, len(kqs) - 1))]
+        br = ["fx", "po2", "ter1", "bin1", "none"][int(rng.integers(0, 5))]
+        bb = bqs[int(rng.integers(0, len(bqs)))]
+        if bk == "apo2" and bb == "apo2":
+          bb = "fx"
+        bub = bool(rng.integers(0, 2))
+        bu = int(rng.integers(1, 4))
+        add("r%d:QBidirectional[%s(%s,%s,%s,bias=%s) <-> backward_layer=%s(%s,%s,%s,bias=%s,%d)]"
+            % (j, cell, kq, rq, bq, ub, bcell, bk, br, bb, bub, bu),
+            {"cls": "bidir", "cell": cell, "bcell": bcell, "explicit_backward": True, "nobias": not ub,
+             "bnobias": not bub},
+            mk_bidir2(cell, bcell, (kq, rq, bq), (bk, br, bb), ub, bub, 2, bu))
+      else:
+        add("r%d:Q%s[%s,%s,%s,bidir=%s,bias=%s]" % (j, cell, kq, rq, bq, bool(bd), ub),
+            {"cls": "bidir" if bd else cell, "kq": kq, "rq": rq, "nobias": not ub},
+            mk_rnn(cell, kq, rq, bq, bidir=bool(bd), use_bias=ub))
   return cases
 
 
-_USER_SUBCLASSES = []
+_USER_SUBCLASSES = {}
 
 
-def _user_subclasses(K, QDense, QConv2D):
+def _user_subclasses(K):
   """user layers derived from quantized layers (registered with Keras, as a user has to for clone/save)"""
   if not _USER_SUBCLASSES:
-    @K.utils.register_keras_serializable(package="qkv")
-    class MyDense(QDense):
-      pass
+    import qkeras
 
-    @K.utils.register_keras_serializable(package="qkv")
-    class MyConv(QConv2D):
-      pass
-    _USER_SUBCLASSES.extend([MyDense, MyConv])
+    def derive(name, base):
+      cls = type(name, (base,), {"__module__": __name__})
+      _USER_SUBCLASSES[name] = K.utils.register_keras_serializable(package="qkv")(cls)
+    derive("MyDense", qkeras.QDense)
+    derive("MyConv", qkeras.QConv2D)
+    derive("Myrnn", qkeras.QSimpleRNN)
+    derive("Mylstm", qkeras.QLSTM)
+    derive("Mygru", qkeras.QGRU)
+    derive("MyBidir", qkeras.QBidirectional)
+    derive("MyBN", qkeras.QBatchNormalization)
+    derive("MyPool", qkeras.QAveragePooling2D)
+    derive("MyFold", qkeras.QConv2DBatchnorm)
   return _USER_SUBCLASSES
+
+
+_UNREGISTERED = {}
+
+
+def _unregistered(QDense, QConv2D):
+  """user subclasses NOT registered with Keras: cloning them needs custom_objects="""
+  if not _UNREGISTERED:
+    _UNREGISTERED["UDense"] = type("UDense", (QDense,), {"__module__": __name__})
+    _UNREGISTERED["UConv"] = type("UConv", (QConv2D,), {"__module__": __name__})
+  return _UNREGISTERED
+
+
+def _unregistered_case(K, QDense, QConv2D, WQ, BQ, bn, set_w, xin):
+  def f():
+    U = _unregistered(QDense, QConv2D)
+    x = inp = K.Input((4, 4, 2))
+    y = QConv2D(2, 2, kernel_quantizer=WQ["fx"](), bias_quantizer=BQ["fx"](), name="c2")(x)
+    y = bn("fx")(y)
+    y = U["UConv"](2, 2, kernel_quantizer=WQ["po2"](), bias_quantizer=BQ["fx"](), name="uc")(y)
+    y = K.layers.Flatten(name="fl")(y)
+    y = U["UDense"](2, kernel_quantizer=WQ["fx"](), bias_quantizer=BQ["po2"](), name="ud")(y)
+    m = K.Model(inp, y)
+    set_w(m)
+    return m, xin((4, 4, 2))
+  return f
 
 
 def _pruned_case(K, QDense, pruned_po2, fx, set_w, xin):
@@ -912,25 +1256,42 @@ def run(run: core.Run, tier: str):
   from qkeras import utils as qutils
   rng = np.random.default_rng(run.seed)
   run.extra["rule"] = (
-      "tiny Keras models over QDense / QConv1D / QConv2D / QDepthwiseConv2D / QSeparableConv2D / "
-      "QSimpleRNN / QLSTM / QGRU / QBidirectional / QConv2DBatchnorm / QAveragePooling2D / "
+      "tiny Keras models (functional and Sequential) over QDense / QConv1D / QConv2D / QDepthwiseConv2D / "
+      "QSeparableConv2D / QSimpleRNN / QLSTM / QGRU / QBidirectional (cloned backward layer, and an "
+      "EXPLICIT backward_layer with other quantizers / bias / class / units) / user subclasses of all "
+      "of these / QConv2DBatchnorm / QAveragePooling2D / "
       "QGlobalAveragePooling2D (with / without average quantizer) / QBatchNormalization (scale and "
       "center, inverse quantizer, scale=False, center=False, both False; fused and stand-alone) "
       "x weight quantizers (quantized_bits fixed, 1-bit, alpha=2, auto_po2, "
       "quantized_po2, binary, ternary, None, a zero-preserving po2 function) x dyadic weights with "
-      "exact zeros and saturating values x three consecutive exports (third via get_model_sparsity); "
+      "exact zeros and saturating values x a history of three exports on one model object (third via "
+      "get_model_sparsity; new weights assigned between two exports in 2 of 3 variants), all in one "
+      "process with identical model / layer names; routes filename= / custom_objects= / allow_list=; "
       "non-trivial = distinct (model template, quantizers, export round); branch histogram = "
       "export branches taken per (quantizer kind) and layer kinds")
   N = 3
-  cases = build_cases(rng, tier)
+  cases = build_cases(rng, tier, rot0=int(run.seed))
   reals = []
-  for c in cases:
-    try:
-      tf.keras.backend.clear_session()
-      r = RealRun(c, N)
-    except Exception as e:  # pylint: disable=broad-except
-      raise core.InfraError("building/running case %s failed: %r" % (c.label, e))
-    reals.append(r)
+  tmpdir = tempfile.mkdtemp(prefix="qkv-c14-")
+  try:
+    for j, c in enumerate(cases):
+      if c.export_kw.get("filename") == "@tmp":
+        c.export_kw["filename"] = os.path.join(tmpdir, "w%d.h5" % j)
+      if c.export_kw.get("custom_objects") == "@unregistered":
+        from qkeras import QDense, QConv2D
+        c.export_kw["custom_objects"] = dict(_unregistered(QDense, QConv2D))
+      try:
+        # clear_session: Keras hands out the same model / layer names ("model", "q_dense", ...) again,
+        # so consecutive cases are DIFFERENT models with IDENTICAL names in one process
+        tf.keras.backend.clear_session()
+        r = RealRun(c, N)
+      except Exception as e:  # pylint: disable=broad-except
+        raise core.InfraError("building/running case %s failed: %r" % (c.label, e))
+      reals.append(r)
+      run.count("history_" + {None: "export_export_sparsity", 1: "export_NEW_export_sparsity",
+                              2: "export_export_NEW_sparsity"}[r.rew])
+  finally:
+    shutil.rmtree(tmpdir, ignore_errors=True)
   lines = [r.line(N) for r in reals]
   outs = core.run_driver("C14", lines)
 
@@ -971,7 +1332,9 @@ def _compare_case(run, r, o, N, judge_lines, judge_meta):
 
   # -- static: fusing pairs
   names = {l.name: i for i, l in enumerate(layers)}
-  if isinstance(r.pairs, tuple) and r.pairs and r.pairs[0] == "err":
+  if r.pairs is None:
+    run.count("fuse_pairs_standalone_call_skipped_no_conv")
+  elif isinstance(r.pairs, tuple) and r.pairs and r.pairs[0] == "err":
     run.disagree("fuse_pairs", {"case": label}, r.pairs, o["pairs"])
   else:
     pd, skip = r.pairs
@@ -993,7 +1356,10 @@ def _compare_case(run, r, o, N, judge_lines, judge_meta):
   all_indep = not r.data_dep
   for rd in range(len(r.errs)):
     mo = o["exports"][rd]
-    Wb, Wa = r.W[rd], r.W[rd + 1]
+    Wb, Wa = r.Wb[rd], r.Wa[rd]
+    fresh = r.fresh[rd]
+    run.count("history_first_export" if rd == 0 else
+              ("history_export_after_new_weights" if fresh else "history_export_again"))
     key_case = (label, rd)
     run.case(key_case, sample={"case": label, "round": rd,
                                "quantizers": [[q_label(q) for q in qs] for qs in r.qs],
@@ -1053,9 +1419,10 @@ def _compare_case(run, r, o, N, judge_lines, judge_meta):
         run.disagree("sparsity", {"case": label}, float(total), [z, a])
       # clause: equals the zero fraction of the weights the allowed layers hold after the export
       zs = al = 0
+      allow_list = r.case.sparsity_kw.get("allow_list") or ALLOW
       for i, l in enumerate(layers):
-        if l.__class__.__name__ in ALLOW and hasattr(l, "quantizers"):
-          ws = r.folded[i] if r.kinds[i] == "folded" else Wa[i]
+        if l.__class__.__name__ in allow_list and hasattr(l, "quantizers"):
+          ws = r.folded_at(rd)[i] if r.kinds[i] == "folded" else Wa[i]
           for t in ws:
             zs += int(np.sum(np.asarray(t) == 0))
             al += int(np.size(t))
@@ -1082,7 +1449,7 @@ def _compare_case(run, r, o, N, judge_lines, judge_meta):
         # not written back; dict must hold q(folded)
         if [key_of(t) for t in Wb[i]] != [key_of(t) for t in Wa[i]]:
           run.violate("folded_not_written", {"site": "folded", "cls": cls}, {"case": label}, mirrored=case_ok)
-        src = r.folded[i]
+        src = r.folded_at(rd)[i]
       else:
         src = Wb[i]
       expect = []
@@ -1090,9 +1457,13 @@ def _compare_case(run, r, o, N, judge_lines, judge_meta):
         q = qs[own[k]] if k < len(own) and own[k] < len(qs) else None
         expect.append(r.tables[id(q)].call(w) if q is not None else f32a(w))
         run.count("q_" + str(q_kind(q)))
+      isbn = is_a(l, "QBatchNormalization")
       site = {"site": "zip", "cls": cls,
-              "bn_scale": bool(getattr(l, "scale", True)) if cls == "QBatchNormalization" else None,
-              "bn_center": bool(getattr(l, "center", True)) if cls == "QBatchNormalization" else None}
+              "bn_scale": bool(getattr(l, "scale", True)) if isbn else None,
+              "bn_center": bool(getattr(l, "center", True)) if isbn else None}
+      if bn_subclass(l):
+        site["bn_user_subclass"] = True
+        site["bn_scale_and_center"] = bool(l.scale and l.center)
       if kind != "folded":
         got = Wa[i]
         if [key_of(t) for t in got] != [key_of(t) for t in expect]:
@@ -1201,7 +1572,17 @@ def _compare_case(run, r, o, N, judge_lines, judge_meta):
         judge_meta.append(meta3)
 
     # ---- predictions / idempotence
-    p0, p1 = r.pred[rd], r.pred[rd + 1]
+    # the weights file written by filename= holds what the model holds after the export
+    if rd in r.file_w:
+      fw = r.file_w[rd]
+      run.count("weights_file_checked")
+      ok = not (isinstance(fw, tuple) and fw and fw[0] == "err") and \
+          [[key_of(t) for t in ws] for ws in fw] == [[key_of(t) for t in ws] for ws in Wa]
+      if not ok:
+        run.violate("weights_file", {"site": "filename"},
+                    {"case": label, "round": rd, "file": str(fw)[:300] if isinstance(fw, tuple) else "differs"},
+                    mirrored=False)
+    p0, p1 = r.pb[rd], r.pa[rd]
     pred_same = (not isinstance(p0, tuple)) and (not isinstance(p1, tuple)) and \
         p0.shape == p1.shape and p0.tobytes() == p1.tobytes()
     w_same = [[key_of(t) for t in ws] for ws in Wb] == [[key_of(t) for t in ws] for ws in Wa]
@@ -1219,21 +1600,23 @@ def _compare_case(run, r, o, N, judge_lines, judge_meta):
                        and isinstance(q.alpha, (int, float)) and q.alpha != 1) for qs in r.qs for q in qs)
     site = {"site": "idempotence", "data_dependent_scale": r.data_dep, "const_alpha_not_1": const_alpha,
             "classes": "+".join(sorted({l.__class__.__name__ for l in layers if hasattr(l, "get_quantizers")}))}
+    if any(bn_subclass(l) and not (l.scale and l.center) for l in layers):
+      site["bn_user_subclass_without_scale_or_center"] = True
     if all_indep:
       if not pred_same:
         run.violate("predict_unchanged", site, {"case": label, "round": rd,
                                                 "quantizers": [[q_label(q) for q in qs] for qs in r.qs]},
                     mirrored=case_ok and not mo["eff_same"])
-      if rd >= 1 and not w_same:
+      if not fresh and not w_same:
         run.violate("second_export_noop", site, {"case": label, "round": rd,
                                                  "quantizers": [[q_label(q) for q in qs] for qs in r.qs]},
                     mirrored=case_ok and not mo["same_w"])
-      if rd >= 1 and r.dicts[rd] is not None and r.dicts[rd - 1] is not None:
-        if canon_dict(r.dicts[rd], model, Wb) != canon_dict(r.dicts[rd - 1], model, r.W[rd - 1]):
+      if not fresh and r.dicts[rd] is not None and r.dicts[rd - 1] is not None:
+        if canon_dict(r.dicts[rd], model, Wb) != canon_dict(r.dicts[rd - 1], model, r.Wb[rd - 1]):
           run.violate("second_export_same_dict", site, {"case": label, "round": rd}, mirrored=case_ok)
     else:
       run.count("data_dependent_round")
-      if rd >= 1 and not w_same:
+      if not fresh and not w_same:
         run.count("data_dependent_second_export_changed")
   if len(run.disagreements) != n_dis0:
     run.count("cases_with_disagreement")
